@@ -347,6 +347,19 @@ func checkC19(c C19Case) error {
 		if err != nil {
 			return err
 		}
+		// the same arguments written as filter expressions of their own (nested chains with
+		// arguments inside the arguments), evaluated twice in one template: same result
+		nested := fmt.Sprintf("x|slice(nul|default(%d), nul|default(%d)|abs * %d)", start, length, sign(length))
+		if c.Omit {
+			nested = fmt.Sprintf("x|slice(nul|default(%d)|round(0))", start)
+		}
+		two, err := evalText("{{ ("+nested+")|json_encode }}#{{ ("+nested+")|json_encode }}#{{ ("+expr+")|json_encode }}", ctx)
+		if err != nil {
+			return err
+		}
+		if parts := strings.Split(two, "#"); len(parts) != 3 || parts[0] != parts[2] || parts[1] != parts[2] {
+			return fmt.Errorf("%s and the same call with its arguments written as nested filter chains (%s, evaluated twice) give %s on %s", expr, nested, two, PrintE2(c.X))
+		}
 		from, to := refSlice(len(elems), start, length, c.Omit)
 		want := append([]interface{}{}, elems[from:to]...)
 		var wantV interface{} = want
@@ -368,6 +381,13 @@ func checkC19(c C19Case) error {
 		return fmt.Errorf("unknown law %q", c.Law)
 	}
 	return nil
+}
+
+func sign(n int) int {
+	if n < 0 {
+		return -1
+	}
+	return 1
 }
 
 func mapVal(e *E, i int) interface{} {
@@ -454,7 +474,7 @@ func c19Tricky(x *E) bool {
 	return false
 }
 
-const c19Rule = "per law (idempotence of upper/lower/trim/capitalize; reverse involution; sort = ordered permutation; length = for-iterations = what first/last/slice see; join/split round trip; list merge = concatenation, also for two merges of the same operand (slices with spare capacity); map merge = later wins + keys once; slice index rules) inputs of every supported type: strings (ASCII, multi-byte, special-casing letters, named string type), untyped lists, []int, []string, []float64, [3]int arrays, untyped and typed maps; slice arguments in [-(n+2), n+2] and omitted; non-trivial = multi-byte string, typed slice/map, negative/out-of-range/omitted argument or empty input; distinct by (law, input, arguments)"
+const c19Rule = "per law (idempotence of upper/lower/trim/capitalize; reverse involution; sort = ordered permutation; length = for-iterations = what first/last/slice see; join/split round trip; list merge = concatenation, also for two merges of the same operand (slices with spare capacity); map merge = later wins + keys once; slice index rules) inputs of every supported type: strings (ASCII, multi-byte, special-casing letters, named string type), untyped lists, []int, []string, []float64, [3]int arrays, untyped and typed maps; slice arguments in [-(n+2), n+2] and omitted, written as literals and as nested filter chains; non-trivial = multi-byte string, typed slice/map, negative/out-of-range/omitted argument or empty input; distinct by (law, input, arguments)"
 
 func TestC19Laws(t *testing.T) {
 	r := NewRec(t, "C19", c19Rule)
